@@ -1,12 +1,22 @@
 ---------------------------- MODULE Trace_CPR04 ----------------------------
 (* Step V for C04.  One event per true position (L, M) on the lattice: the  *)
-(* CPR fields the decoder was given (as rs1090 parsed them from the frames) *)
-(* and what cpr::airborne_position returned for the pair in both orders     *)
-(* ("eo": even then odd, "oe") and for the two same-parity pairs.           *)
+(* CPR fields the decoder was given (as rs1090 parsed them from the frames: *)
+(* f0/f1 the even/odd report, g0/g1 a second, different report of the same  *)
+(* position and parity, n0/n1 the reports of the neighbouring lattice       *)
+(* point; each <<parity, lat_cpr, lon_cpr>>, or <<-1,0,0>> / <<-2,0,0>>     *)
+(* when rs1090 rejected the frame / panicked on it) and what                *)
+(* cpr::airborne_position returned for the pair in both orders ("eo": even  *)
+(* then odd, "oe") and for same-parity pairs of two DIFFERENT messages:     *)
+(* ee/oo same position, een/oon with the neighbouring point, eep/oop with   *)
+(* the previous vector's position.                                          *)
 (*                                                                          *)
 (* Judgement (the property, nothing more):                                  *)
 (*   binding      the fields fed to the decoder are CPR.tla's encoding of   *)
-(*                (L, M) -- the independent encoder;                        *)
+(*                (L, M) -- the independent encoder.  A frame rs1090 does   *)
+(*                not deliver as a position message is no binding error:    *)
+(*                the frames are valid whatever their altitude field says,  *)
+(*                the pair then has outcome "none" (or "panic") and is      *)
+(*                judged by the position clause;                            *)
 (*   none  =>     ~SameBand(L) \/ NearThreshold (empty on the 2^17 grid;    *)
 (*                Rlat = 87 exactly is NOT exempt: NL(+-87) = 2)            *)
 (*   some  =>     err_mm <= 10 000 (ruler, trusted) and, on the exact f64,  *)
@@ -17,12 +27,14 @@
 (*   A panic is never allowed.                                              *)
 EXTENDS CPR, TraceBase
 
+\* a report as parsed by rs1090 is the encoding of (L, M) with parity i, or was not delivered
+Rep(f, i, L, M) == f[1] < 0 \/ f = <<i, YZ("air", i, L), XZ("air", i, L, M)>>
+
 Bound(ev) ==
-  /\ ev.parse = "ok"
   /\ InLattice(ev.L, ev.M)
-  /\ ev.p0 = 0 /\ ev.p1 = 1
-  /\ ev.yz0 = YZ("air", 0, ev.L) /\ ev.xz0 = XZ("air", 0, ev.L, ev.M)
-  /\ ev.yz1 = YZ("air", 1, ev.L) /\ ev.xz1 = XZ("air", 1, ev.L, ev.M)
+  /\ Rep(ev.f0, 0, ev.L, ev.M) /\ Rep(ev.f1, 1, ev.L, ev.M)
+  /\ Rep(ev.g0, 0, ev.L, ev.M) /\ Rep(ev.g1, 1, ev.L, ev.M)
+  /\ Rep(ev.n0, 0, NeighL(ev.L), NeighM(ev.M)) /\ Rep(ev.n1, 1, NeighL(ev.L), NeighM(ev.M))
 
 InRangeOut(r) == LatInRange(r.latb) /\ LonInRange(r.lonb)
 
@@ -40,7 +52,12 @@ Why(ev) ==
   ELSE IF WhyPair(ev.eo, ev.L) # "" THEN WhyPair(ev.eo, ev.L)
   ELSE IF WhyPair(ev.oe, ev.L) # "" THEN WhyPair(ev.oe, ev.L)
   ELSE IF WhySame(ev.ee) # "" THEN WhySame(ev.ee)
-  ELSE WhySame(ev.oo)
+  ELSE IF WhySame(ev.oo) # "" THEN WhySame(ev.oo)
+  ELSE IF WhySame(ev.een) # "" THEN WhySame(ev.een)
+  ELSE IF WhySame(ev.oon) # "" THEN WhySame(ev.oon)
+  ELSE IF Has(ev, "eep") /\ WhySame(ev.eep) # "" THEN WhySame(ev.eep)
+  ELSE IF Has(ev, "oop") THEN WhySame(ev.oop)
+  ELSE ""
 
 VARIABLE l
 Init == l = 1
